@@ -138,6 +138,16 @@ def step (E : ClassEnv) (j : Json) : Json × ClassEnv :=
     let E' := envOfJson e
     (Json.mkObj [("env", .num (JsonNumber.fromNat E'.classes.length))], E')
   | _ =>
+  match j.getObjVal? "instantiators" with
+  | .ok spec =>
+    let parse (k : String) : List Instantiator :=
+      let regs : List (Instantiator × Bool) := (getArr spec k).filterMap fun x => match x with
+        | .arr #[.str tag, .str c, .bool sub, .bool prepend] => some (({ tag := tag, cls := c, subclasses := sub } : Instantiator), prepend)
+        | _ => none
+      regs.foldl (fun reg e => addInstantiator reg e.1 e.2) []
+    let l := getInstantiators (parse "own") (parse "parent") (parse "ctx")
+    (Json.mkObj [("tag", .str (pickInstantiator E l (getStr j "cls"))), ("order", .arr (l.map fun i => Json.str i.tag).toArray)], E)
+  | _ =>
   match j.getObjVal? "explicit" with
   | .ok v =>
     let prev := match j.getObjVal? "prev" with
